@@ -1,6 +1,6 @@
 CONSTANTS
   Defects = {"star_raw"}
-  Family = "names"
+  Family = "names_small"
   Deep = FALSE
 INIT Init
 NEXT Next
